@@ -143,7 +143,7 @@ func c04Scenario(r *vkit.Run, in c04Input) {
 			r.HarnessError("replay divergence: %s", c.Diverged)
 		}
 	}, func(c *vsched.Ctx) bool { return !r.Stop() })
-	r.Step(int(st.Points))
+	r.Step(int(st.Points) + int(st.Executions)) // choice points + one input->outcome transition per execution
 	r.Count("schedules", st.Executions)
 	r.Count("schedules_with_preemption_or_switch", st.Deviating)
 	r.Count("open_orders_seen_sum", int64(len(openOrders)))
